@@ -342,9 +342,17 @@ func c17Cover(w *core.W, j int) {
 
 // ---- key export / import ----
 
+// key sizes incl. the largest RSA modulus Generate accepts (4096 bits = 512 octets) and one that is
+// not a multiple of 64 bits
+var c17KeyBits = map[uint8][]int{
+	dns.RSASHA1: {1024, 3072}, dns.RSASHA256: {1024, 2048, 4096, 1032}, dns.RSASHA512: {1024, 4096},
+	dns.ECDSAP256SHA256: {256}, dns.ECDSAP384SHA384: {384}, dns.ED25519: {256},
+}
+
 func c17Keys(w *core.W, j int) {
 	alg := allAlgs[j%len(allAlgs)]
-	bits := algBits[alg][(j/len(allAlgs))%len(algBits[alg])]
+	bl := c17KeyBits[alg]
+	bits := bl[(j/len(allAlgs))%len(bl)]
 	k, err := freshKey(alg, bits, "keys.example.", 256+uint16(j%2))
 	if err != nil {
 		w.Inconclusive("keygen:" + err.Error())
@@ -423,7 +431,9 @@ func c17Validity(w *core.W, j int) {
 	for k := 0; k < 400; k++ {
 		// true (unbounded) times: t, inception I <= expiration E, all within 68 years of each other
 		var t int64
-		switch r.IntN(6) {
+		switch r.IntN(7) {
+		case 6:
+			t = int64(r.IntN(3)) // the epoch itself and its neighbours
 		case 0:
 			t = 1_700_000_000 + r.Int64N(400_000_000)
 		case 1:
